@@ -146,9 +146,9 @@ def run(c):
         c.guard(g, cnt.get(g, 0))
     c.guard("values_where_rounding_shows", rounded)
     # ---- Apalache results on the recorded extreme cases: first the verdicts on the lists, then (if they agree) the values
-    def failing(prefix, ks):
-        o2 = fnlib.Obligations(c, "fn", "PieceExt", [("case %d" % k, "Init", "%s%dCase" % (prefix, k), True) for k in ks], par=3)
-        return [ks[i] for i, f_ in enumerate(o2.futs) if not f_.result()["holds"]]
+    def failing(sel):
+        # up to three disagreeing cases, named by Apalache's counterexamples
+        return fnlib.find_failing(c, "fn", "PieceExt", lambda ex: fnlib.piece_ext_module("PieceExt", ext, ex), sel, len(ext))
 
     def settled(o):
         try:
@@ -161,7 +161,7 @@ def run(c):
 
     ext_failed = []
     if not settled(ext_obl):
-        ext_failed = failing("Valid", list(range(len(ext))))
+        ext_failed = failing("SelValid")
         for k in ext_failed:
             cs = ext[k]
             c.violation("interpolation-extremes", "piecefunc:extreme:" + ("rejected-valid-list" if cs["panicked"] else "accepted-invalid-list"),
@@ -175,7 +175,7 @@ def run(c):
             pass
     else:
         if not settled(val_obl):
-            ks = failing("Value", [k for k, cs in enumerate(ext) if not cs["panicked"]])
+            ks = failing("SelValues")
             for k in ks:
                 cs = ext[k]
                 c.violation("interpolation-extremes", "piecefunc:extreme:value",
